@@ -16,6 +16,29 @@ CHECKS = {
         "readers are matched structurally against the very formula the data is checked with; every *_strict call site is shown "
         "to be on an aligned pair. Finite data + straight-line readers: exhaustive enumeration is a proof here.",
    note=TB + "Reviewed: the three call-site patterns of rule B (pinned / guarded / well-formed move)."),
+ "C03": dict(cat="other", ref="DESIGN.md §3 C03",
+   technique="abstract interpretation of do_make_move effect trees on a symbolic board, compared with the rules' effect table; constant tabulation of castling helpers",
+   text="Static: for both colours x 10 move kinds x every sub-case the rules distinguish, the constant-folded effect tree of do_make_move is "
+        "interpreted on an abstract board (symbolic squares/cells) and must end in exactly the squares, side, en-passant mark, counters "
+        "and castling-rights update the rules prescribe, with saturating counters only; update_castling and the castling constants are "
+        "decoded against the home squares. Decides the per-step data movement for all inputs of each abstract case; it does not decide "
+        "that every concrete semilegal move falls into its case's pre-state (that is C06/C02's semilegality invariant).",
+   note=TB + "Assumes the pre-state of each abstract case (source holds mv.src_cell, castling squares hold king/rook/empty, en-passant victim behind dst)."),
+ "C04": dict(cat="other", ref="DESIGN.md §3 C04",
+   technique="abstract interpretation of do_unmake_move on the abstract post-state; memory-version check of the undo record; path rules on Make impls",
+   text="Static: the RawUndo aggregate is built only from memory-version-0 reads (before any store) for every kind; do_unmake_move "
+        "interpreted on the abstract post-state of each kind/case restores every touched square, every set membership, `all` and all "
+        "scalar fields from the undo record; dispatch colour mapping; every error path of every Make::make_raw leaves the board untouched "
+        "or rolls back with the same move and undo. Per-step exactness for all inputs of each abstract case; nesting follows by induction.",
+   note=TB + "Same abstract-case assumptions as C03."),
+ "C05": dict(cat="other", ref="DESIGN.md §3 C05",
+   technique="symbolic XOR-multiset comparison of hash updates with zobrist(post)^zobrist(pre); occupancy membership simulation; exhaustive key-table algebra",
+   text="Static: per make arm the multiset (mod 2) of keys XOR-ed into the hash equals the key difference of the squares/side/en-passant/"
+        "castling the rules change (castling deltas numerically against the build's tables), no stale read-modify-write, occupancy sets "
+        "follow the cells in make and unmake, `all` recomputed last; key tables: PIECES[EMPTY]=0, CASTLING xor-linear, distinctness of all "
+        "single-feature keys (exhaustive); writers of Board's cached fields confined to two modules; validation hashes the normalised raw "
+        "board. Equality along histories follows by induction from the per-step result and C04; not claimed beyond that.",
+   note=TB + "Same abstract-case assumptions as C03; hash collisions between different positions are inherent and out of scope."),
 }
 
 NOT_YET = {}
